@@ -226,6 +226,163 @@ fn c19_bounded() -> Result<(), String> {
     Ok(())
 }
 
+// ---------------------------------------------------------------------------------------------------------
+// `hunt`: concrete counterexample search, run by ./check only AFTER a Verus obligation failed (Verus gives no model).
+// Small-scope exploration by execution of the real crate: every operation sequence up to a depth over the 7 prefixes of
+// length <= 2 of (u8,u8) (+ host-bit variants on insertion), compared after every step with an abstract ordered map.
+// A hit turns "no-failing-input-found" into a concrete failing history; a miss proves nothing and changes nothing.
+// ---------------------------------------------------------------------------------------------------------
+#[derive(Clone, Copy, Debug)]
+enum Op { Insert(usize, u8), EntryOrInsert(usize, u8), EntryInsert(usize, u8), Remove(usize), RemoveKeepTree(usize), RemoveChildren(usize), RetainLenNot2, RetainEven, Clear }
+
+type Oracle = std::collections::BTreeMap<Vec<u8>, ((u8, u8), u16)>;
+
+fn hrep(k: usize, host: u8) -> (u8, u8) { let key = KEYS[k]; (key.0 | (host & (0xffu8 >> key.1)), key.1) }
+
+fn covers(a: &[u8], b: &[u8]) -> bool { a.len() <= b.len() && a == &b[..a.len()] }
+
+fn hunt_check(m: &PrefixMap<P, u16>, o: &Oracle, keep_tree_used: bool) -> Result<(), String> {
+    partition_ok(m).map_err(|e| format!("slot partition broken: {e}"))?;
+    let (_, _, count, slots) = m.verif_arena();
+    if !keep_tree_used {
+        // canonical shape: every reachable value-less node other than the root has two children
+        let mut st = vec![0usize];
+        while let Some(i) = st.pop() {
+            let (l, r, v) = slots[i];
+            if i != 0 && !v && !(l.is_some() && r.is_some()) { return Err(format!("non-canonical shape: value-less node at slot {i} has children ({l:?}, {r:?})")); }
+            if let Some(l) = l { st.push(l) }
+            if let Some(r) = r { st.push(r) }
+        }
+    }
+    if m.len() != o.len() || count != o.len() || m.is_empty() != o.is_empty() { return Err(format!("len() = {}, stored entries = {}", m.len(), o.len())); }
+    let want: Vec<((u8, u8), u16)> = o.values().cloned().collect();
+    let got: Vec<((u8, u8), u16)> = m.iter().map(|(p, v)| (*p, *v)).collect();
+    if got != want { return Err(format!("iter() yields {got:?}, expected {want:?}")); }
+    for k in 0..7 {
+        for host in [0u8, 0x2a] {
+            let q = hrep(k, host);
+            let e = o.get(&okey(KEYS[k]));
+            if m.get(&q) != e.map(|x| &x.1) { return Err(format!("get({q:?}) = {:?}, expected {:?}", m.get(&q), e.map(|x| x.1))); }
+            if m.contains_key(&q) != e.is_some() { return Err(format!("contains_key({q:?}) = {}", m.contains_key(&q))); }
+            if m.get_key_value(&q).map(|(p, v)| (*p, *v)) != e.cloned() { return Err(format!("get_key_value({q:?}) = {:?}, expected {:?}", m.get_key_value(&q), e)); }
+        }
+    }
+    let queries: Vec<(u8, u8)> = KEYS.iter().cloned().chain([(0x20, 3), (0x60, 3), (0xa0, 3), (0xe0, 3), (0x2f, 3)]).collect();
+    for q in queries {
+        let qk = okey((q.0 & !(0xffu16 >> q.1) as u8, q.1));
+        let cov: Vec<((u8, u8), u16)> = o.iter().filter(|(k, _)| covers(k, &qk)).map(|(_, v)| *v).collect();   // BTreeMap order on bit strings: a prefix sorts first
+        let mut by_len = cov.clone(); by_len.sort_by_key(|e| (e.0).1);
+        let lpm = m.get_lpm(&q).map(|(p, v)| (*p, *v));
+        if lpm != by_len.last().cloned() { return Err(format!("get_lpm({q:?}) = {lpm:?}, expected {:?}", by_len.last())); }
+        if m.get_lpm_prefix(&q).cloned() != by_len.last().map(|e| e.0) { return Err(format!("get_lpm_prefix({q:?}) = {:?}, expected {:?}", m.get_lpm_prefix(&q), by_len.last().map(|e| e.0))); }
+        let mut mc = m.clone();
+        let lpm_mut = mc.get_lpm_mut(&q).map(|(p, v)| (*p, *v));
+        if lpm_mut != by_len.last().cloned() { return Err(format!("get_lpm_mut({q:?}) = {lpm_mut:?}, expected {:?}", by_len.last())); }
+        let spm = m.get_spm(&q).map(|(p, v)| (*p, *v));
+        if spm != by_len.first().cloned() { return Err(format!("get_spm({q:?}) = {spm:?}, expected {:?}", by_len.first())); }
+        let c: Vec<((u8, u8), u16)> = m.cover(&q).map(|(p, v)| (*p, *v)).collect();
+        if c != by_len { return Err(format!("cover({q:?}) = {c:?}, expected {by_len:?}")); }
+        let below: Vec<((u8, u8), u16)> = o.iter().filter(|(k, _)| covers(&qk, k)).map(|(_, v)| *v).collect();
+        let ch: Vec<((u8, u8), u16)> = m.children(&q).map(|(p, v)| (*p, *v)).collect();
+        if ch != below { return Err(format!("children({q:?}) = {ch:?}, expected {below:?}")); }
+    }
+    Ok(())
+}
+
+fn hunt_apply(m: &mut PrefixMap<P, u16>, o: &mut Oracle, op: Op, val: u16) -> Result<(), String> {
+    match op {
+        Op::Insert(k, h) => {
+            let p = hrep(k, h);
+            let r = m.insert(p, val);
+            let e = o.insert(okey(KEYS[k]), (p, val));
+            if r != e.map(|x| x.1) { return Err(format!("insert({p:?}) returned {r:?}, expected {:?}", e.map(|x| x.1))); }
+        }
+        Op::EntryOrInsert(k, h) => {
+            let p = hrep(k, h);
+            let r = *m.entry(p).or_insert(val);
+            let e = o.entry(okey(KEYS[k])).or_insert((p, val));
+            if r != e.1 { return Err(format!("entry({p:?}).or_insert returned {r}, expected {}", e.1)); }
+        }
+        Op::EntryInsert(k, h) => {
+            let p = hrep(k, h);
+            let r = m.entry(p).insert(val);
+            let e = o.insert(okey(KEYS[k]), (p, val));
+            if r != e.map(|x| x.1) { return Err(format!("entry({p:?}).insert returned {r:?}, expected {:?}", e.map(|x| x.1))); }
+        }
+        Op::Remove(k) => {
+            let r = m.remove(&KEYS[k]);
+            let e = o.remove(&okey(KEYS[k]));
+            if r != e.map(|x| x.1) { return Err(format!("remove({:?}) returned {r:?}, expected {:?}", KEYS[k], e.map(|x| x.1))); }
+        }
+        Op::RemoveKeepTree(k) => {
+            let r = m.remove_keep_tree(&KEYS[k]);
+            let e = o.remove(&okey(KEYS[k]));
+            if r != e.map(|x| x.1) { return Err(format!("remove_keep_tree({:?}) returned {r:?}, expected {:?}", KEYS[k], e.map(|x| x.1))); }
+        }
+        Op::RemoveChildren(k) => {
+            m.remove_children(&KEYS[k]);
+            let qk = okey(KEYS[k]);
+            o.retain(|kk, _| !covers(&qk, kk));
+        }
+        Op::RetainLenNot2 => { m.retain(|p, _| p.1 != 2); o.retain(|_, v| (v.0).1 != 2); }
+        Op::RetainEven => { m.retain(|_, v| *v % 2 == 0); o.retain(|_, v| v.1 % 2 == 0); }
+        Op::Clear => { m.clear(); o.clear(); }
+    }
+    Ok(())
+}
+
+fn hunt_rec(m: &PrefixMap<P, u16>, o: &Oracle, ops: &[Op], hist: &mut Vec<Op>, depth: usize, kt: bool, n: &mut u64) -> Result<(), String> {
+    if depth == 0 { return Ok(()); }
+    for op in ops {
+        let mut m2 = m.clone();
+        let mut o2 = o.clone();
+        hist.push(*op);
+        *n += 1;
+        let kt2 = kt || matches!(op, Op::RemoveKeepTree(_) | Op::RemoveChildren(_));   // canonicity is claimed for the insert / remove / retain / clear sub-alphabet only
+        let val = (hist.len() * 2 + (*n % 2) as usize) as u16;
+        let step = std::panic::catch_unwind(std::panic::AssertUnwindSafe(|| {
+            hunt_apply(&mut m2, &mut o2, *op, val)?;
+            hunt_check(&m2, &o2, kt2)
+        }));
+        match step {
+            Ok(Ok(())) => {}
+            Ok(Err(e)) => return Err(format!("history {hist:?} (keys by index into {KEYS:?}; second field = host bits or-ed in): {e}")),
+            Err(_) => return Err(format!("history {hist:?} (keys by index into {KEYS:?}): panic")),
+        }
+        hunt_rec(&m2, &o2, ops, hist, depth - 1, kt2, n)?;
+        hist.pop();
+    }
+    Ok(())
+}
+
+fn hunt() -> Result<(), String> {
+    std::panic::set_hook(Box::new(|_| {}));
+    let depth: usize = std::env::var("VERIF_HUNT_DEPTH").ok().and_then(|s| s.parse().ok()).unwrap_or(3);
+    let mut ops: Vec<Op> = Vec::new();
+    for k in 0..7 {
+        ops.push(Op::Insert(k, 0)); ops.push(Op::Insert(k, 0x15));
+        ops.push(Op::EntryOrInsert(k, 0x33)); ops.push(Op::EntryInsert(k, 0x0f));
+        ops.push(Op::Remove(k)); ops.push(Op::RemoveKeepTree(k)); ops.push(Op::RemoveChildren(k));
+    }
+    ops.push(Op::RetainLenNot2); ops.push(Op::RetainEven); ops.push(Op::Clear);
+    let mut n = 0u64;
+    // iterative deepening (the first hit is a shortest failing history); two start states: the empty map, and the full map
+    // (so that removals meet every shape within the depth)
+    let empty: PrefixMap<P, u16> = PrefixMap::new();
+    let mut full: PrefixMap<P, u16> = PrefixMap::new();
+    let mut of = Oracle::new();
+    for k in 0..7 { full.insert(KEYS[k], 100 + k as u16); of.insert(okey(KEYS[k]), (KEYS[k], 100 + k as u16)); }
+    for d in 1..=depth {
+        hunt_rec(&empty, &Oracle::new(), &ops, &mut Vec::new(), d, false, &mut n)?;
+        if d >= 2 {
+            let mut h0 = vec![];
+            hunt_rec(&full, &of, &ops, &mut h0, d - 1, false, &mut n).map_err(|e| format!("start = all 7 keys inserted with values 100..106, then {e}"))?;
+        }
+    }
+    println!("STATS hunt evaluations={n} depth={depth}");
+    Ok(())
+}
+
 fn c04_entry_remove() -> Result<(), String> {
     let mut m: PrefixMap<P, u8> = PrefixMap::new();
     m.insert((0x80, 1), 1);
@@ -385,6 +542,7 @@ fn main() {
         ("c16_leak", c16_leak),
         ("c19_eq_prefix", c19_eq_prefix),
         ("c19_bounded", c19_bounded),
+        ("hunt", hunt),
         ("c04_entry_remove", c04_entry_remove),
         ("c04_entry_remove_reinsert", c04_entry_remove_reinsert),
         ("c04_view_remove", c04_view_remove),
